@@ -318,6 +318,10 @@ func builtinStringSplit(call FunctionCall) Value {
 	if separatorValue.isRegExp() {
 		targetLength := len(target)
 		search := separatorValue.object().regExpValue().regularExpression
+		if targetLength == 0 && search.MatchString("") {
+			// ES5 15.5.4.14 step 11: an empty subject that the separator matches gives [].
+			return objectValue(call.runtime.newArray(0))
+		}
 		valueArray := []Value{}
 		result := search.FindAllStringSubmatchIndex(target, -1)
 		lastIndex := 0
